@@ -15,6 +15,9 @@ import RsjProofs.LexerQuoted
 import RsjProofs.LexerVerbatim
 import RsjProofs.LexerNumber
 import RsjProofs.LexerTextBlock
+import RsjProofs.LexerAcceptStrings
+import RsjProofs.LexerAcceptTextBlock
+import RsjProofs.LexerAcceptDriver
 namespace Rsj.Lexer
 open Rsj.Utf8
 
@@ -162,20 +165,68 @@ theorem C14_verbatim_value (p delim : Nat) (hd : delim = 34 ∨ delim = 39) (seg
         .tok (.string out) ⟨p + (vsegBytes delim segs).length + 3, tail⟩ :=
   nextToken_verbatim p delim hd segs tail htl hwf
 
-/-- The token-driven direction for strings: every `String` token the lexer
-    produces spans a literal of one of the two well-formed shapes above and
-    carries its value.  NOT PROVED: what is missing is the acceptance half —
-    that `lex_quoted_string` / `lex_verbatim_string` reject every body that is
-    not of these shapes (the check `checks/c14.py` tests this direction on the
-    implementation with an independent unescaper).  Given acceptance, this
-    follows from `C14_escape_decode` / `C14_verbatim_value` because `nextToken`
-    is a function. -/
+/-- The token-driven direction for strings as first written, WITHOUT a byte
+    hypothesis on the cursor: every `String` token the lexer produces spans a
+    literal of one of the two well-formed shapes above and carries its value.
+
+    This statement is FALSE for the model (`C14_string_value_full_false`
+    below): the model's cursor is a `List Nat`, and on a "byte" ≥ 256 (which no
+    real `&[u8]` input contains) `decodeCont` answers U+FFFD, whereas `SegsWF` /
+    `VSegsWF` only describe bodies made of bytes (`IsBytes`).  It is kept as a
+    `def` for the record; the corrected statement, with the hypothesis
+    `IsBytes c.rest` that every real input satisfies, is the theorem
+    `C14_string_value` (and `C14_string_value_lexAll` for whole inputs). -/
 def C14_string_value_full : Prop :=
   ∀ (c c' : Cur) (out : List Nat), nextToken c = .tok (.string out) c' →
     (∃ delim segs, (delim = 34 ∨ delim = 39) ∧ SegsWF delim segs ∧ SegsValue segs out ∧
         c.rest.take (c'.pos - c.pos) = delim :: (segBytes segs ++ [delim])) ∨
     (∃ delim segs, (delim = 34 ∨ delim = 39) ∧ VSegsWF delim segs ∧ VSegsValue delim segs out ∧
         c.rest.take (c'.pos - c.pos) = 64 :: delim :: (vsegBytes delim segs ++ [delim]))
+
+/-- **C14 string_value.** The token-driven direction for strings (same conclusion
+    as `C14_string_value_full`, verbatim) on byte input: every `String` token
+    `next_token` returns spans either a quoted literal `delim body delim` whose
+    body is a sequence of raw byte runs and escape sequences of the accepted
+    forms (`SegsWF`: the nine single-character escapes, `\uXXXX` of a
+    non-surrogate, a high+low surrogate pair — so the scanners REJECT every
+    other body), or a verbatim literal `@ delim body delim` (`VSegsWF`: raw runs
+    and doubled delimiters), and the token's payload is the value of that body
+    (`SegsValue` / `VSegsValue`: runs lossily decoded, escapes replaced by
+    their scalar, doubled delimiters halved).  Proved by inversion of the
+    scanner loops (`quotedLoop_inv`, `lexEscape_inv`, `verbatimLoop_inv`). -/
+theorem C14_string_value (c c' : Cur) (out : List Nat) (hb : IsBytes c.rest)
+    (h : nextToken c = .tok (.string out) c') :
+    (∃ delim segs, (delim = 34 ∨ delim = 39) ∧ SegsWF delim segs ∧ SegsValue segs out ∧
+        c.rest.take (c'.pos - c.pos) = delim :: (segBytes segs ++ [delim])) ∨
+    (∃ delim segs, (delim = 34 ∨ delim = 39) ∧ VSegsWF delim segs ∧ VSegsValue delim segs out ∧
+        c.rest.take (c'.pos - c.pos) = 64 :: delim :: (vsegBytes delim segs ++ [delim])) :=
+  nextToken_string_value hb h
+
+/-- The same for the tokens of a whole byte input: each `String` token of
+    `lex_to_eof` carries the value of the input slice it spans, which is a
+    well-formed quoted or verbatim literal. -/
+theorem C14_string_value_lexAll (input : List Nat) (flag : Bool) (toks : List Token)
+    (hb : IsBytes input) (h : lexAll input flag = .ok toks) (t : Token) (ht : t ∈ toks)
+    (out : List Nat) (hk : t.kind = .string out) :
+    (∃ delim segs, (delim = 34 ∨ delim = 39) ∧ SegsWF delim segs ∧ SegsValue segs out ∧
+        (input.drop t.start).take (t.stop - t.start) = delim :: (segBytes segs ++ [delim])) ∨
+    (∃ delim segs, (delim = 34 ∨ delim = 39) ∧ VSegsWF delim segs ∧ VSegsValue delim segs out ∧
+        (input.drop t.start).take (t.stop - t.start) = 64 :: delim :: (vsegBytes delim segs ++ [delim])) := by
+  have ho := C14_tokens_from_next_token input flag toks h t ht
+  rw [hk] at ho
+  exact C14_string_value _ _ out (IsBytes.drop hb _) ho
+
+/-- The statement without the byte hypothesis is false: the model lexes
+    `" 300 "` (300 is not a byte) to the one-character string U+FFFD, and no
+    well-formed body contains the source "byte" 300. -/
+theorem C14_string_value_full_false : ¬ C14_string_value_full := by
+  intro hfull
+  exact string_token_nonbyte.2 (hfull ⟨0, [34, 300, 34]⟩ ⟨3, []⟩ [0xFFFD] string_token_nonbyte.1)
+
+/-! Non-vacuity of `C14_string_value`: a byte cursor at a quoted literal with an escape. -/
+example : IsBytes (Cur.mk 5 (bytesOf "'a\\n' x")).rest ∧
+    nextToken ⟨5, bytesOf "'a\\n' x"⟩ = .tok (.string [97, 10]) ⟨10, bytesOf " x"⟩ :=
+  ⟨by unfold IsBytes; decide, by decide⟩
 
 /-! Non-vacuity: `'aé😀' x` with a raw run, a BMP escape and a surrogate pair. -/
 example : ∃ segs, SegsWF 39 segs ∧ SegsValue segs [97, 0xE9, 0x1F600] ∧
@@ -196,6 +247,16 @@ example : ∃ segs, SegsWF 39 segs ∧ SegsValue segs [97, 0xE9, 0x1F600] ∧
 example : lexAll (bytesOf "'a\\u00e9\\ud83d\\ude00' @\"x\"\"\"") false =
     .ok [⟨.string [97, 0xE9, 0x1F600], 0, 21⟩, ⟨.string [120, 34], 22, 28⟩, ⟨.eof, 28, 28⟩] := by
   decide +kernel
+
+/-- The byte hypothesis of `C14_string_value` / `C14_textblock_strip` holds for
+    every input of the correspondence check: what the driver op `lex` decodes
+    from its hex argument and hands to `lexAll` is a list of bytes (as is every
+    `&[u8]` the real lexer sees). -/
+theorem C14_driver_input_is_bytes (s : String) (input : List Nat)
+    (h : Rsj.hexDecode s = some input) : IsBytes input :=
+  hexDecode_isBytes h
+
+example : Rsj.hexDecode "27c3a927" = some [0x27, 0xC3, 0xA9, 0x27] := by decide
 
 /-! ## Numbers -/
 
@@ -241,10 +302,10 @@ example : litParts (bytesOf "1_0.2_5e-1_2") = ⟨bytesOf "10", bytesOf "25", tru
     followed by every line without the prefix, lossily decoded, newline kept;
     `|||-` drops exactly the final newline (`finishTb`).
 
-    Missing for the full statement (`C14_textblock_strip_full`): the CR LF
-    variants as coded (a CR directly after the first prefix, `CR LF` empty
-    lines), a first content starting with a space/tab (longer prefix) and the
-    token-driven direction (every accepted block is of a well-formed shape). -/
+    This is the constructive direction for LF-only blocks.  The CR LF variants
+    as coded (a CR directly after the first prefix, `CR LF` empty lines) and the
+    token-driven direction (every accepted block is of a well-formed shape and
+    carries its stripped text) are `C14_textblock_strip` below. -/
 theorem C14_textblock_strip_partial (p : Nat) (strip : Bool) (ws0 : List Nat) (k0 : Nat)
     (pfx c1 : List Nat) (L : List TbLine) (tws tail : List Nat)
     (hws0 : ∀ b ∈ ws0, isSpTabCr b = true) (hpne : pfx ≠ []) (hpfx : ∀ b ∈ pfx, isSpTab b = true)
@@ -258,9 +319,18 @@ theorem C14_textblock_strip_partial (p : Nat) (strip : Bool) (ws0 : List Nat) (k
           ⟨p + 3 + ((tbSource strip ws0 k0 pfx c1 L tws tail).length - tail.length), tail⟩ :=
   nextToken_textBlock p strip ws0 k0 pfx c1 L tws tail hws0 hpne hpfx hc1 hc1n hc1h hL htws hterm
 
-/-- Full statement (unproved): every `TextBlock` token is the stripped, lossily
+/-- The token-driven statement for text blocks as first written, WITHOUT a byte
+    hypothesis on the cursor: every `TextBlock` token is the stripped, lossily
     decoded text of the lines it spans, including the CR LF forms. Lines are
-    split at LF; a line consisting of an optional CR only counts as empty. -/
+    split at LF; a line consisting of an optional CR only counts as empty.
+
+    This statement is FALSE for the model (`C14_textblock_strip_full_false`
+    below), for the same reason as `C14_string_value_full`: on a cursor
+    holding a "byte" ≥ 256 (no real `&[u8]` does) the model's `decodeCont`
+    masks it (`384 &&& 192 = 128` looks like a continuation byte), whereas the
+    specification `Lossy` is stated against the encoder, whose output is bytes.
+    It is kept as a `def` for the record; the corrected statement, with the
+    hypothesis `IsBytes c.rest`, is the theorem `C14_textblock_strip`. -/
 def C14_textblock_strip_full : Prop :=
   ∀ (c c' : Cur) (out : List Nat), nextToken c = .tok (.textBlock out) c' →
     ∃ (strip : Bool) (hdr pfx : List Nat) (lines : List (List Nat)) (term : List Nat),
@@ -272,6 +342,66 @@ def C14_textblock_strip_full : Prop :=
       (∀ l ∈ lines, 10 ∉ l ∧ (l = [] ∨ l = [13] ∨ pfx <+: l)) ∧
       ∃ full, Lossy (lines.flatMap (fun l => (if pfx <+: l then l.drop pfx.length else l) ++ [10])) full ∧
         out = finishTb strip full
+
+/-- **C14 textblock_strip.** The token-driven direction for text blocks (same
+    conclusion as `C14_textblock_strip_full`, verbatim) on byte input: every
+    `TextBlock` token `next_token` returns spans
+    `|||` [`-`] `hdr` LF `line LF`* `term` `|||` with `hdr` spaces/tabs/CRs,
+    `term` spaces/tabs, and every line (split at LF) either empty (`""` or a
+    lone CR, i.e. a CR LF empty line) or starting with one fixed non-empty
+    space/tab prefix `pfx` — so `lex_text_block` REJECTS everything else — and
+    the token's text is the lossy decoding of the lines with `pfx` removed, LF
+    kept (a CR before the LF, or directly after the prefix, is kept as
+    written), minus exactly the final LF for `|||-` (`finishTb`).  Proved by
+    inversion of the three loops of `lex_text_block` (`tbFirst_inv`,
+    `tbEmptyLines_inv`, `tbLoop_inv`). -/
+theorem C14_textblock_strip (c c' : Cur) (out : List Nat) (hb : IsBytes c.rest)
+    (h : nextToken c = .tok (.textBlock out) c') :
+    ∃ (strip : Bool) (hdr pfx : List Nat) (lines : List (List Nat)) (term : List Nat),
+      c.rest.take (c'.pos - c.pos) =
+        124 :: 124 :: 124 :: ((if strip then [45] else []) ++ hdr ++ 10 ::
+          (lines.flatMap (fun l => l ++ [10]) ++ term ++ [124, 124, 124])) ∧
+      (∀ b ∈ hdr, isSpTabCr b = true) ∧ (∀ b ∈ term, isSpTab b = true) ∧
+      pfx ≠ [] ∧ (∀ b ∈ pfx, isSpTab b = true) ∧
+      (∀ l ∈ lines, 10 ∉ l ∧ (l = [] ∨ l = [13] ∨ pfx <+: l)) ∧
+      ∃ full, Lossy (lines.flatMap (fun l => (if pfx <+: l then l.drop pfx.length else l) ++ [10])) full ∧
+        out = finishTb strip full :=
+  nextToken_textBlock_value hb h
+
+/-- The same for the tokens of a whole byte input: each `TextBlock` token of
+    `lex_to_eof` is the stripped, lossily decoded text of the input slice it spans. -/
+theorem C14_textblock_strip_lexAll (input : List Nat) (flag : Bool) (toks : List Token)
+    (hb : IsBytes input) (h : lexAll input flag = .ok toks) (t : Token) (ht : t ∈ toks)
+    (out : List Nat) (hk : t.kind = .textBlock out) :
+    ∃ (strip : Bool) (hdr pfx : List Nat) (lines : List (List Nat)) (term : List Nat),
+      (input.drop t.start).take (t.stop - t.start) =
+        124 :: 124 :: 124 :: ((if strip then [45] else []) ++ hdr ++ 10 ::
+          (lines.flatMap (fun l => l ++ [10]) ++ term ++ [124, 124, 124])) ∧
+      (∀ b ∈ hdr, isSpTabCr b = true) ∧ (∀ b ∈ term, isSpTab b = true) ∧
+      pfx ≠ [] ∧ (∀ b ∈ pfx, isSpTab b = true) ∧
+      (∀ l ∈ lines, 10 ∉ l ∧ (l = [] ∨ l = [13] ∨ pfx <+: l)) ∧
+      ∃ full, Lossy (lines.flatMap (fun l => (if pfx <+: l then l.drop pfx.length else l) ++ [10])) full ∧
+        out = finishTb strip full := by
+  have ho := C14_tokens_from_next_token input flag toks h t ht
+  rw [hk] at ho
+  exact C14_textblock_strip _ _ out (IsBytes.drop hb _) ho
+
+/-- The statement without the byte hypothesis is false: the model lexes
+    `||| LF SP 0xC2 384 LF |||` (384 is not a byte) to the text `U+0080 LF`,
+    but no lossy decoding of a list without the byte `0x80` contains U+0080. -/
+theorem C14_textblock_strip_full_false : ¬ C14_textblock_strip_full := by
+  intro hfull
+  exact textblock_token_nonbyte.2
+    (hfull ⟨0, [124, 124, 124, 10, 32, 0xC2, 384, 10, 124, 124, 124]⟩ ⟨11, []⟩ [128, 10]
+      textblock_token_nonbyte.1)
+
+/-! Non-vacuity of `C14_textblock_strip`: a byte cursor at a CR LF text block (CR LF
+    after `|||`, a CR LF empty line before and after the first text line, a CR
+    directly after the first prefix); every CR is kept. -/
+example : IsBytes (Cur.mk 7 (bytesOf "|||\r\n\r\n  \ra\r\n\r\n  b\r\n |||;")).rest ∧
+    nextToken ⟨7, bytesOf "|||\r\n\r\n  \ra\r\n\r\n  b\r\n |||;"⟩ =
+      .tok (.textBlock (bytesOf "\r\n\ra\r\n\r\nb\r\n")) ⟨31, bytesOf ";"⟩ :=
+  ⟨by unfold IsBytes; decide, by decide +kernel⟩
 
 /-! Non-vacuity: `|||-`, an empty first line, tab prefix, an empty line in the middle. -/
 example : nextToken ⟨0, bytesOf "|||- \n\n\ta\n\n\t b\n |||;"⟩ =
@@ -312,4 +442,18 @@ open Rsj.Lexer in
 open Rsj.Lexer in
 #print axioms C14_number_value
 open Rsj.Lexer in
+#print axioms C14_string_value
+open Rsj.Lexer in
+#print axioms C14_string_value_lexAll
+open Rsj.Lexer in
+#print axioms C14_string_value_full_false
+open Rsj.Lexer in
+#print axioms C14_driver_input_is_bytes
+open Rsj.Lexer in
 #print axioms C14_textblock_strip_partial
+open Rsj.Lexer in
+#print axioms C14_textblock_strip
+open Rsj.Lexer in
+#print axioms C14_textblock_strip_lexAll
+open Rsj.Lexer in
+#print axioms C14_textblock_strip_full_false
